@@ -12,13 +12,14 @@ Ghost state (`Ghost`): the content the `k`-th successful run of a target wrote, 
 namespace Dawn.Build
 
 /-- What a label is, for all time: labels spell their kind and (for sources) their path; a function's
-fingerprint determines what its body reads and writes (the paths are literals of its code); every generated
-path belongs to one label. -/
+fingerprint determines what its body writes (the paths are literals of its code) and, together with the lists it is
+handed through `self` (`self.dependencies`, `self.sources`, `self.generates`: `Attrs`), what it reads — a body may
+read `self.sources` in order, or every other entry of `self.dependencies`; every generated path belongs to one label. -/
 structure Shape where
   kindOf : Label → Kind
   pathOf : Label → Path
   gensOf : Label → Env → List Path
-  readsOf : Label → Env → List Label
+  readsOf : Label → Env → Attrs → List Label
   owner : Path → Option Label
   owned : ∀ l e g, g ∈ gensOf l e → owner g = some l
   gensNodup : ∀ l e, (gensOf l e).Nodup
@@ -28,7 +29,7 @@ structure Conforms (S : Shape) (t : Tree) : Prop where
   kind : ∀ l d, t.defs l = some d → d.kind = S.kindOf l
   path : ∀ l d, t.defs l = some d → d.kind = .src → d.path = S.pathOf l
   gens : ∀ l d, t.defs l = some d → d.kind = .fn → d.gens = S.gensOf l d.env
-  reads : ∀ l d, t.defs l = some d → d.kind = .fn → d.reads = S.readsOf l d.env
+  reads : ∀ l d, t.defs l = some d → d.kind = .fn → d.reads = S.readsOf l d.env (attrsOf d)
   readsDeps : ∀ l d, t.defs l = some d → d.kind = .fn → ∀ x ∈ d.reads, x ∈ depsOf t l d
   /-- `link`: a source whose file a live target generates depends on that target -/
   link : ∀ y dy, t.defs y = some dy → dy.kind = .src → ∀ l, S.owner dy.path = some l → (t.defs l).isSome → l ∈ depsOf t y dy
@@ -57,12 +58,14 @@ structure DInv (P : Params) (S : Shape) (w : World) (G : Ghost) : Prop where
   /-- a generated file of a success record is missing or is what that record's run wrote -/
   rec_out : ∀ l r e, w.recs l = some r → r.rerun = false → r.data = .env e →
     ∀ g ∈ S.gensOf l e, w.files g = .missing ∨ w.files g = .file (G.hist l r.runs g)
-  /-- what it wrote is the body applied to the recorded fingerprint and to what it observed -/
-  rec_hist : ∀ l r e, w.recs l = some r → r.rerun = false → r.data = .env e →
-    ∀ g ∈ S.gensOf l e, G.hist l r.runs g = P.out l e ((S.readsOf l e).map fun x => (x, G.obs l r.runs x)) g
+  /-- a success record of a function target remembers the lists its run was handed (D32 repair) -/
+  rec_attrs : ∀ l r e, w.recs l = some r → r.rerun = false → r.data = .env e → ∃ a, r.attrs = some a
+  /-- what it wrote is the body applied to the recorded fingerprint, the recorded lists and what it observed -/
+  rec_hist : ∀ l r e a, w.recs l = some r → r.rerun = false → r.data = .env e → r.attrs = some a →
+    ∀ g ∈ S.gensOf l e, G.hist l r.runs g = P.out l e a ((S.readsOf l e a).map fun x => (x, G.obs l r.runs x)) g
   /-- what it observed is what the stamps it lists stand for -/
-  rec_seen : ∀ l r e, w.recs l = some r → r.rerun = false → r.data = .env e →
-    ∀ x ∈ S.readsOf l e, SeenOK P S G r x (G.obs l r.runs x)
+  rec_seen : ∀ l r e a, w.recs l = some r → r.rerun = false → r.data = .env e → r.attrs = some a →
+    ∀ x ∈ S.readsOf l e a, SeenOK P S G r x (G.obs l r.runs x)
   /-- listed run counters never exceed the dependency's present counter (unless the dependency was collected for good) -/
   runs_le : ∀ l r, w.recs l = some r → ∀ x st, r.deps.lookup x = some st → st.runs ≤ runsOf (w.recs x) ∨ G.retired x
   /-- sources are never counted -/
@@ -70,7 +73,7 @@ structure DInv (P : Params) (S : Shape) (w : World) (G : Ghost) : Prop where
 
 /-- `l` holds what its body computes from the present files of what it reads -/
 def Consistent (P : Params) (t : Tree) (w : World) (l : Label) (d : Def) : Prop :=
-  ∀ g ∈ d.gens, w.files g = .file (P.out l d.env (d.reads.map fun x => (x, observe t w x)) g)
+  ∀ g ∈ d.gens, w.files g = .file (P.out l d.env (attrsOf d) (d.reads.map fun x => (x, observe t w x)) g)
 
 /-- the invariant of one build -/
 def MOk (P : Params) (S : Shape) (t : Tree) (w : World) (G : Ghost) (x : Label) (m : Res) : Prop :=
@@ -125,7 +128,7 @@ theorem plan_skip {P : Params} {t : Tree} {o : Opts} {s : BSt} {l : Label} {d : 
     · rename_i hc
       cases h
       simp only [Bool.and_eq_true, Bool.not_eq_eq_eq_not, Bool.not_true] at hc
-      obtain ⟨⟨⟨h1, h2, _⟩, h3⟩, h4⟩ := hc
+      obtain ⟨⟨⟨h1, ⟨h2, _⟩, _⟩, h3⟩, h4⟩ := hc
       refine ⟨rfl, h1, h4, h3, ?_⟩
       intro x hx
       obtain ⟨m, hm, hok⟩ := deps_ok_of_find_none hfind x hx
@@ -142,6 +145,20 @@ theorem plan_skip {P : Params} {t : Tree} {o : Opts} {s : BSt} {l : Label} {d : 
 /-- A skipped target's record lists exactly as many dependencies as the target has now (D29 repair). -/
 theorem plan_skip_length {P : Params} {t : Tree} {o : Opts} {s : BSt} {l : Label} {d : Def} {info : Rec}
     (h : plan P t o s l d = .skip info) : (!P.depCount || info.deps.length == (depsOf t l d).length) = true := by
+  unfold plan at h
+  simp only at h
+  split at h
+  · cases h
+  · split at h
+    · rename_i hc
+      cases h
+      simp only [Bool.and_eq_true] at hc
+      exact hc.1.1.2.1.2
+    · split at h <;> cases h
+
+/-- A skipped function target's record remembers the lists the target has now, or none (D32 repair). -/
+theorem plan_skip_attrs {P : Params} {t : Tree} {o : Opts} {s : BSt} {l : Label} {d : Def} {info : Rec}
+    (h : plan P t o s l d = .skip info) : attrsOK P d info = true := by
   unfold plan at h
   simp only at h
   split at h
@@ -273,10 +290,12 @@ theorem loadedInfo_rerun_false {w : World} {l : Label} {d : Def} (h : (loadedInf
 
 /-- the skip decision is sound -/
 theorem skip_sound {P : Params} {S : Shape} {t : Tree} {o : Opts} {s : BSt} {G : Ghost} {l : Label} {d : Def} {info : Rec}
-    (hc : Conforms S t) (hinj : SumInj P) (hsr : P.stampRuns = true) (di : DInv P S s.w G) (mi : MInv P S t s G)
+    (hc : Conforms S t) (hinj : SumInj P) (hsr : P.stampRuns = true) (hlc : P.listCheck = true)
+    (di : DInv P S s.w G) (mi : MInv P S t s G)
     (hd : t.defs l = some d) (hp : plan P t o s l d = .skip info) :
     MOk P S t s.w G l ⟨true, false, stampOf P info, false⟩ := by
   obtain ⟨hinfo, _, hrr, hup, hdeps⟩ := plan_skip hp
+  have hattrs := plan_skip_attrs hp
   have hinfo' : info = (s.w.recs l).getD emptyRec := by
     rw [hinfo]; exact loadedInfo_rerun_false (hinfo ▸ hrr)
   refine ⟨d, hd, ?_⟩
@@ -316,15 +335,22 @@ theorem skip_sound {P : Params} {S : Shape} {t : Tree} {o : Opts} {s : BSt} {G :
         rcases di.rec_out l info d.env hr hrr hdata g (hgens ▸ hg) with hmiss | hfile
         · simp [hmiss] at hpres
         · exact hfile
+      -- the record remembers the lists the target has now
+      have hat : info.attrs = some (attrsOf d) := by
+        obtain ⟨a, ha⟩ := di.rec_attrs l info d.env hr hrr hdata
+        unfold attrsOK at hattrs
+        simp only [hlc, Bool.not_true, hkd, Bool.false_or, ha] at hattrs
+        have : a = attrsOf d := by simpa using hattrs
+        rw [ha, this]
       refine ⟨info, rfl, hrr, hdata, by simp [stampOf, hsr], hfiles, ?_⟩
       intro g hg
-      rw [hfiles g hg, di.rec_hist l info d.env hr hrr hdata g (hgens ▸ hg), hc.reads l d hd hkd]
+      rw [hfiles g hg, di.rec_hist l info d.env _ hr hrr hdata hat g (hgens ▸ hg), hc.reads l d hd hkd]
       congr 2
       apply List.map_congr_left
       intro x hx
       have hxr : x ∈ d.reads := by rw [hc.reads l d hd hkd]; exact hx
       obtain ⟨m, hm, hok, _, hl⟩ := hdeps x (hc.readsDeps l d hd hkd x hxr)
-      have hseen := di.rec_seen l info d.env hr hrr hdata x hx
+      have hseen := di.rec_seen l info d.env _ hr hrr hdata hat x hx
       rw [obs_eq_of_seen hc hinj (mi.mok x m hm hok) info hl _ hseen]
 
 end Dawn.Build
@@ -437,8 +463,9 @@ theorem dinv_step {P : Params} {S : Shape} {w w' : World} {G G' : Ghost} {T : La
     (hsrc : S.kindOf T = .src → r'.runs = 0)
     (hnew : r'.rerun = false → ∀ e, r'.data = .env e →
       (∀ g ∈ S.gensOf T e, w'.files g = .missing ∨ w'.files g = .file (G'.hist T r'.runs g)) ∧
-      (∀ g ∈ S.gensOf T e, G'.hist T r'.runs g = P.out T e ((S.readsOf T e).map fun x => (x, G'.obs T r'.runs x)) g) ∧
-      (∀ x ∈ S.readsOf T e, SeenOK P S G' r' x (G'.obs T r'.runs x))) :
+      ∃ a, r'.attrs = some a ∧
+      (∀ g ∈ S.gensOf T e, G'.hist T r'.runs g = P.out T e a ((S.readsOf T e a).map fun x => (x, G'.obs T r'.runs x)) g) ∧
+      (∀ x ∈ S.readsOf T e a, SeenOK P S G' r' x (G'.obs T r'.runs x))) :
     DInv P S w' G' := by
   have hmono : ∀ x, runsOf (w.recs x) ≤ runsOf (w'.recs x) := by
     intro x
@@ -459,24 +486,36 @@ theorem dinv_step {P : Params} {S : Shape} {w w' : World} {G G' : Ghost} {T : La
     · rw [hrecs l hl] at hr
       rw [hown l e g hl hg, hhist l _ _ (Or.inl hl)]
       exact di.rec_out l r e hr hrr hd g hg
-  · intro l r e hr hrr hd g hg
+  · intro l r e hr hrr hd
     by_cases hl : l = T
     · subst hl
       rw [hT] at hr; cases hr
-      exact (hnew hrr e hd).2.1 g hg
+      obtain ⟨a, ha, _⟩ := (hnew hrr e hd).2
+      exact ⟨a, ha⟩
     · rw [hrecs l hl] at hr
-      rw [hhist l _ _ (Or.inl hl), di.rec_hist l r e hr hrr hd g hg]
+      exact di.rec_attrs l r e hr hrr hd
+  · intro l r e a hr hrr hd hat g hg
+    by_cases hl : l = T
+    · subst hl
+      rw [hT] at hr; cases hr
+      obtain ⟨a', ha', h1, _⟩ := (hnew hrr e hd).2
+      rw [hat] at ha'; cases ha'
+      exact h1 g hg
+    · rw [hrecs l hl] at hr
+      rw [hhist l _ _ (Or.inl hl), di.rec_hist l r e a hr hrr hd hat g hg]
       congr 3
       funext x
       rw [hobs l _ _ (Or.inl hl)]
-  · intro l r e hr hrr hd x hx
+  · intro l r e a hr hrr hd hat x hx
     by_cases hl : l = T
     · subst hl
       rw [hT] at hr; cases hr
-      exact (hnew hrr e hd).2.2 x hx
+      obtain ⟨a', ha', _, h2⟩ := (hnew hrr e hd).2
+      rw [hat] at ha'; cases ha'
+      exact h2 x hx
     · rw [hrecs l hl] at hr
       rw [hobs l _ _ (Or.inl hl)]
-      exact seenOK_mono di hr hTr hhist (di.rec_seen l r e hr hrr hd x hx)
+      exact seenOK_mono di hr hTr hhist (di.rec_seen l r e a hr hrr hd hat x hx)
   · intro l r hr x st hst
     by_cases hl : l = T
     · subst hl
@@ -597,7 +636,7 @@ theorem bodyWrites_fst (P : Params) (t : Tree) (w : World) (l : Label) (d : Def)
   simp [bodyWrites, List.map_map, Function.comp_def]
 
 theorem mem_bodyWrites (P : Params) (t : Tree) (w : World) (l : Label) (d : Def) (g : Path) (hg : g ∈ d.gens) :
-    (g, P.out l d.env (d.reads.map fun x => (x, observe t w x)) g) ∈ bodyWrites P t w l d := by
+    (g, P.out l d.env (attrsOf d) (d.reads.map fun x => (x, observe t w x)) g) ∈ bodyWrites P t w l d := by
   simp only [bodyWrites, List.mem_map]
   exact ⟨g, hg, rfl⟩
 
@@ -646,7 +685,7 @@ theorem hold_frame {P : Params} {S : Shape} {t : Tree} {s : BSt} {G G' : Ghost} 
   exact mok_frame hc hxl hfiles hrecs hhist (by simp [hd]) a1 a2 (mi.mok x m hx hok)
 
 theorem visit_inv {P : Params} {S : Shape} {t : Tree} {o : Opts} {s : BSt} {G : Ghost} {l : Label}
-    (hc : Conforms S t) (hinj : SumInj P) (hsr : P.stampRuns = true) (hdry : o.dry = false)
+    (hc : Conforms S t) (hinj : SumInj P) (hsr : P.stampRuns = true) (hlc : P.listCheck = true) (hdry : o.dry = false)
     (di : DInv P S s.w G) (mi : MInv P S t s G) (ord : Order t s l) (hret : ∀ x, G.retired x → t.defs x = none) :
     ∃ G', DInv P S (visit P t o s l).w G' ∧ MInv P S t (visit P t o s l) G' ∧ G'.retired = G.retired := by
   cases hd : t.defs l with
@@ -674,7 +713,7 @@ theorem visit_inv {P : Params} {S : Shape} {t : Tree} {o : Opts} {s : BSt} {G : 
       · apply minv_extend (res := ⟨true, false, stampOf P info, false⟩) mi ord.fresh
         · intro x m hx hok; simpa [visit, hd, hp] using mi.mok x m hx hok
         · intro _
-          refine ⟨by simpa [visit, hd, hp] using skip_sound hc hinj hsr di mi hd hp, ?_⟩
+          refine ⟨by simpa [visit, hd, hp] using skip_sound hc hinj hsr hlc di mi hd hp, ?_⟩
           intro d' hd' y hy
           rw [hd] at hd'; cases hd'
           obtain ⟨m, h1, h2, _, _⟩ := (plan_skip hp).2.2.2.2 y hy
@@ -699,7 +738,7 @@ theorem visit_inv {P : Params} {S : Shape} {t : Tree} {o : Opts} {s : BSt} {G : 
           | some r => exact di.src_runs l r hr (by rw [← hkind, hk])
         refine ⟨G, ?_, ?_, rfl⟩
         · rw [hw]
-          apply dinv_step (T := l) di (r' := ⟨dd, srcData P (s.w.files d.path), false, info.runs⟩)
+          apply dinv_step (T := l) di (r' := ⟨dd, srcData P (s.w.files d.path), false, info.runs, none⟩)
           · exact hlr
           · intro x h; exact h
           · intro y hy; simp [upd, hy]
@@ -716,7 +755,7 @@ theorem visit_inv {P : Params} {S : Shape} {t : Tree} {o : Opts} {s : BSt} {G : 
             · simp [upd, e]
           · intro _; exact hzero
           · intro _ e h; exact absurd h (srcData_ne_env P _ e)
-        · apply minv_extend (res := ⟨true, true, stampOf P ⟨dd, srcData P (s.w.files d.path), false, info.runs⟩, false⟩) mi ord.fresh
+        · apply minv_extend (res := ⟨true, true, stampOf P ⟨dd, srcData P (s.w.files d.path), false, info.runs, none⟩, false⟩) mi ord.fresh
           · rw [hw]
             exact hold_frame hc mi ord hd (fun p _ => rfl) (fun y hy => by simp [upd, hy]) (fun _ _ _ _ => rfl)
           · intro _
@@ -748,7 +787,7 @@ theorem visit_inv {P : Params} {S : Shape} {t : Tree} {o : Opts} {s : BSt} {G : 
               · cases hgc
             · exact hp
           refine ⟨G, ?_, ?_, rfl⟩
-          · apply dinv_step (T := l) di (r' := ⟨dd, .empty, true, info.runs⟩)
+          · apply dinv_step (T := l) di (r' := ⟨dd, .empty, true, info.runs, none⟩)
             · exact hlr
             · intro x h; exact h
             · intro y hy; rw [hw]; simp [upd, hy]
@@ -774,7 +813,7 @@ theorem visit_inv {P : Params} {S : Shape} {t : Tree} {o : Opts} {s : BSt} {G : 
           obtain ⟨he, hwa⟩ := applySteps_exec_fn_ok P t o s.w l d info dd hk hf
           rw [hwa] at hw
           let k := info.runs + 1
-          let content : Path → Nat := fun g => P.out l d.env (d.reads.map fun x => (x, observe t s.w x)) g
+          let content : Path → Nat := fun g => P.out l d.env (attrsOf d) (d.reads.map fun x => (x, observe t s.w x)) g
           let G' : Ghost :=
             { hist := fun y k' g => if y = l ∧ k' = k then content g else G.hist y k' g
               obs := fun y k' x => if y = l ∧ k' = k then observe t s.w x else G.obs y k' x
@@ -822,7 +861,7 @@ theorem visit_inv {P : Params} {S : Shape} {t : Tree} {o : Opts} {s : BSt} {G : 
             exact observe_frame hc hfiles (by simp [hd]) (hlfresh x hxd)
               (fun dy hdy => ord.above x m dy hm hok hdy)
           refine ⟨G', ?_, ?_, rfl⟩
-          · apply dinv_step (T := l) di (r' := ⟨dd, .env d.env, false, k⟩)
+          · apply dinv_step (T := l) di (r' := ⟨dd, .env d.env, false, k, some (attrsOf d)⟩)
             · exact hlr
             · intro x h; exact h
             · intro y hy; rw [hw]; simp [upd, hy]
@@ -842,7 +881,7 @@ theorem visit_inv {P : Params} {S : Shape} {t : Tree} {o : Opts} {s : BSt} {G : 
             · intro _ e hde
               simp only [Data.env.injEq] at hde
               subst hde
-              refine ⟨?_, ?_, ?_⟩
+              refine ⟨?_, attrsOf d, rfl, ?_, ?_⟩
               · intro g hg
                 right
                 exact hwritten g (hgens ▸ hg)
@@ -853,21 +892,21 @@ theorem visit_inv {P : Params} {S : Shape} {t : Tree} {o : Opts} {s : BSt} {G : 
                 have hxr : x ∈ d.reads := by rw [hc.reads l d hd hk]; exact hx
                 have hxd := hc.readsDeps l d hd hk x hxr
                 obtain ⟨m, hm, hok⟩ := hdepsok x hxd
-                have hl : (⟨dd, .env d.env, false, k⟩ : Rec).deps.lookup x = some m.data := by
+                have hl : (⟨dd, .env d.env, false, k, some (attrsOf d)⟩ : Rec).deps.lookup x = some m.data := by
                   simp only
                   rw [hdd, lookup_map_self _ _ _ hxd]
                   simp [memoData, hm]
-                have := seen_of_mok hc (mi.mok x m hm hok) ⟨dd, .env d.env, false, k⟩ hl
+                have := seen_of_mok hc (mi.mok x m hm hok) ⟨dd, .env d.env, false, k, some (attrsOf d)⟩ hl
                 have hG : G'.obs l k x = observe t s.w x := by simp [G']
                 rw [hG]
                 exact seenOK_congr (fun k' g => hhist x k' g (Or.inl (hlfresh x hxd))) this
-          · apply minv_extend (res := ⟨true, true, stampOf P ⟨dd, .env d.env, false, k⟩, false⟩) mi ord.fresh
+          · apply minv_extend (res := ⟨true, true, stampOf P ⟨dd, .env d.env, false, k, some (attrsOf d)⟩, false⟩) mi ord.fresh
             · exact hold_frame hc mi ord hd hfiles (fun y hy => by rw [hw]; simp [upd, hy])
                 (fun y k' g hy => hhist y k' g (Or.inl hy))
             · intro _
               refine ⟨⟨d, hd, ?_⟩, ?_⟩
               · simp only [hk]
-                refine ⟨⟨dd, .env d.env, false, k⟩, by rw [hw]; simp only [upd_same]; rfl, rfl, rfl, by simp [stampOf, hsr], hwritten, ?_⟩
+                refine ⟨⟨dd, .env d.env, false, k, some (attrsOf d)⟩, by rw [hw]; simp only [upd_same]; rfl, rfl, rfl, by simp [stampOf, hsr], hwritten, ?_⟩
                 intro g hg
                 rw [hwritten g hg]
                 simp only [G', and_self, if_true, content]
@@ -887,7 +926,7 @@ namespace Dawn.Build
 /-! ## builds, loads, edits -/
 
 theorem build_inv {P : Params} {S : Shape} {t : Tree} {o : Opts} (hc : Conforms S t) (hinj : SumInj P)
-    (hsr : P.stampRuns = true) (hdry : o.dry = false) :
+    (hsr : P.stampRuns = true) (hlc : P.listCheck = true) (hdry : o.dry = false) :
     ∀ (ord : List Label) (s : BSt) (G : Ghost), DInv P S s.w G → MInv P S t s G → Ordered P t o s ord →
       (∀ x, G.retired x → t.defs x = none) →
       ∃ G', DInv P S (build P t o s ord).w G' ∧ MInv P S t (build P t o s ord) G' ∧ G'.retired = G.retired := by
@@ -896,7 +935,7 @@ theorem build_inv {P : Params} {S : Shape} {t : Tree} {o : Opts} (hc : Conforms 
   | nil => intro s G di mi _ _; exact ⟨G, di, mi, rfl⟩
   | cons l rest ih =>
     intro s G di mi ho hret
-    obtain ⟨G1, di1, mi1, hr1⟩ := visit_inv hc hinj hsr hdry di mi ho.1 hret
+    obtain ⟨G1, di1, mi1, hr1⟩ := visit_inv hc hinj hsr hlc hdry di mi ho.1 hret
     obtain ⟨G2, di2, mi2, hr2⟩ := ih _ G1 di1 mi1 ho.2 (by rw [hr1]; exact hret)
     exact ⟨G2, di2, mi2, by rw [hr2, hr1]⟩
 
@@ -921,13 +960,17 @@ theorem dinv_of_sem {P : Params} {S : Shape} {w w' : World} {G : Ghost} (di : DI
     rcases hcase l r h with h0 | ⟨_, h0⟩
     · exact di.rec_out l r e h0 hrr hd g hg
     · subst h0; cases hd
-  · intro l r e h hrr hd g hg
+  · intro l r e h hrr hd
     rcases hcase l r h with h0 | ⟨_, h0⟩
-    · exact di.rec_hist l r e h0 hrr hd g hg
+    · exact di.rec_attrs l r e h0 hrr hd
     · subst h0; cases hd
-  · intro l r e h hrr hd x hx
+  · intro l r e a h hrr hd hat g hg
     rcases hcase l r h with h0 | ⟨_, h0⟩
-    · exact di.rec_seen l r e h0 hrr hd x hx
+    · exact di.rec_hist l r e a h0 hrr hd hat g hg
+    · subst h0; cases hd
+  · intro l r e a h hrr hd hat x hx
+    rcases hcase l r h with h0 | ⟨_, h0⟩
+    · exact di.rec_seen l r e a h0 hrr hd hat x hx
     · subst h0; cases hd
   · intro l r h x st hst
     rw [hruns]
@@ -959,8 +1002,9 @@ theorem dinv_edit {P : Params} {S : Shape} {w w' : World} {G : Ghost} (di : DInv
     · rw [h1]; exact di.rec_out l r e h hrr hd g hg
     · left; exact h1
     · rw [S.owned l e g hg] at h1; cases h1
-  · intro l r e h; rw [he.recs] at h; exact di.rec_hist l r e h
-  · intro l r e h; rw [he.recs] at h; exact di.rec_seen l r e h
+  · intro l r e h; rw [he.recs] at h; exact di.rec_attrs l r e h
+  · intro l r e a h; rw [he.recs] at h; exact di.rec_hist l r e a h
+  · intro l r e a h; rw [he.recs] at h; exact di.rec_seen l r e a h
   · intro l r h; rw [he.recs] at h ⊢; exact di.runs_le l r h
   · intro l r h; rw [he.recs] at h; exact di.src_runs l r h
 
@@ -968,7 +1012,8 @@ theorem dinv_empty (P : Params) (S : Shape) (w : World) (G : Ghost) (h : ∀ l, 
   constructor
   · intro l r e hr; rw [h l] at hr; cases hr
   · intro l r e hr; rw [h l] at hr; cases hr
-  · intro l r e hr; rw [h l] at hr; cases hr
+  · intro l r e a hr; rw [h l] at hr; cases hr
+  · intro l r e a hr; rw [h l] at hr; cases hr
   · intro l r hr; rw [h l] at hr; cases hr
   · intro l r hr; rw [h l] at hr; cases hr
 
@@ -976,12 +1021,12 @@ theorem dinv_empty (P : Params) (S : Shape) (w : World) (G : Ghost) (h : ∀ l, 
 visited successfully holds exactly what its body computes from the present files of what it reads, and every
 generated file it declares is present. -/
 theorem build_consistent {P : Params} {S : Shape} {t : Tree} {o : Opts} (hc : Conforms S t) (hinj : SumInj P)
-    (hsr : P.stampRuns = true) (hdry : o.dry = false) (ord : List Label) (w : World) (G : Ghost)
+    (hsr : P.stampRuns = true) (hlc : P.listCheck = true) (hdry : o.dry = false) (ord : List Label) (w : World) (G : Ghost)
     (di : DInv P S w G) (ho : Ordered P t o (BSt.init (load t w)) ord) (hret : ∀ x, G.retired x → t.defs x = none) :
     ∃ G', DInv P S (runBuild P t o ord w).w G' ∧ G'.retired = G.retired ∧
       ∀ l m d, (runBuild P t o ord w).memo l = some m → m.ok = true → t.defs l = some d → d.kind = .fn →
         Consistent P t (runBuild P t o ord w).w l d := by
-  obtain ⟨G', di', mi', hr'⟩ := build_inv hc hinj hsr hdry ord (BSt.init (load t w)) G (dinv_load t di) (minv_init t _ G) ho hret
+  obtain ⟨G', di', mi', hr'⟩ := build_inv hc hinj hsr hlc hdry ord (BSt.init (load t w)) G (dinv_load t di) (minv_init t _ G) ho hret
   refine ⟨G', di', hr', ?_⟩
   intro l m d hm hok hd hk
   obtain ⟨d', hd', h⟩ := mi'.mok l m hm hok
